@@ -257,6 +257,11 @@ def run_scenario(sc):
     # monkeytype.tracing (random.randrange / random.Random() made per tracer), and - for a generator object created
     # elsewhere in monkeytype, e.g. at import time - random.Random.randrange itself when the caller is monkeytype code.
     import random as _random_mod
+    if sc.get("filter_values"):
+        # a filter that answers with truthy / falsy VALUES instead of True / False (re.search(...), dict.get(...), a count)
+        acc, rej = {"re": (object(), None), "count": (2, 0), "text": ("yes", ""), "seq": ([0], [])}[sc["filter_values"]]
+        base_filter = code_filter
+        code_filter = lambda code: acc if base_filter(code) else rej  # noqa: E731
     if sc.get("falsy_filter"):
         # a filter OBJECT (callable) whose truth value is False - an empty collection of patterns with a __call__
         inner_filter = code_filter
@@ -278,6 +283,13 @@ def run_scenario(sc):
     _random_mod.Random.randrange = hooked_randrange
     err = "NONE"
     tracer = None
+    outer = None
+    if sc.get("nested"):
+        # the block is entered while ANOTHER tracing block of MonkeyType is active (a program that traces itself, run under
+        # `monkeytype run`): the outer one admits nothing and has a logger of its own; the inner block must work as if alone
+        outer_logger = RecordingLogger(S, {})
+        outer = mtt.trace_calls(outer_logger, 0, lambda code: False)
+        outer.__enter__()
     try:
         with mtt.trace_calls(logger, sc["k"], code_filter, sc["rate"] or None):
             tracer = sys.getprofile()
@@ -287,6 +299,11 @@ def run_scenario(sc):
     except Exception as e:  # something escaped the tracer / the program
         err = type(e).__name__
     finally:
+        if outer is not None:
+            try:
+                outer.__exit__(None, None, None)
+            except Exception:
+                pass
         mtt.random = old_random
         _random_mod.Random.randrange = orig_randrange
     resid = residue_count(tracer, S)
@@ -692,7 +709,7 @@ def main(pid, tier, seed, replay=None):
             tid = len(scs) + 1
             rate = rates[i % len(rates)]
             scs.append({"tid": tid, "hist": b["hist"], "rate": rate, "k": 0, "seed": seed * 7919 + i, "twin_rejected": i % 4 == 3, "falsy_filter": i % 16 == 5,
-                        "log_fails": (1 + i % 3) if i % 8 == 6 else 0})
+                        "log_fails": (1 + i % 3) if i % 8 == 6 else 0, "nested": i % 9 == 4})
             preds[tid] = b["pred"]
             if i % 5 == 0:   # the same behaviour with rich values (no prediction; P-layer only)
                 scs.append({"tid": tid + 1, "hist": b["hist"], "rate": rate, "k": rng.choice([0, 3]),
@@ -722,7 +739,7 @@ def main(pid, tier, seed, replay=None):
     for v in verdicts:
         rec, sc = by_tid[v["tid"]], sc_by_tid[v["tid"]]
         for clause in v.get("viol", []):
-            case = {k: sc[k] for k in ("hist", "rate", "k", "seed", "twin_rejected", "falsy_filter", "log_fails") if k in sc}
+            case = {k: sc[k] for k in ("hist", "rate", "k", "seed", "twin_rejected", "falsy_filter", "log_fails", "nested", "filter_values") if k in sc}
             if "rich" in sc:
                 case["rich"] = sc["rich"]
             run.violation(scenario_signature(rec, sc, clause), case)
